@@ -16,12 +16,12 @@ open Rivaas.Http Rivaas.Compress Rivaas.CompressSpec
 
 /-! ### the main theorem -/
 
-theorem lemma_runWith_eq (sn : Sniff) (cfg : Cfg) (path ae : Bytes) (ops : List Op) :
-    runWith sn cfg path ae ops =
-      if (active cfg path ae).isEmpty then
-        { panicked := (runPlain sn ops).1.panicked, resp := (runPlain sn ops).1.resp,
-          decoded := some (runPlain sn ops).1.resp.body, outs := (runPlain sn ops).2 }
-      else respOf sn (finalCW sn cfg (active cfg path ae) ops).1 (finalCW sn cfg (active cfg path ae) ops).2 := by
+theorem lemma_runWith_eq (sn : Sniff) (cfg : Cfg) (path ae : Bytes) (h0 : Hdrs) (ops : List Op) :
+    runWith sn cfg path ae h0 ops =
+      if (active cfg path ae h0).isEmpty then
+        { panicked := (runPlain sn h0 ops).1.panicked, resp := (runPlain sn h0 ops).1.resp,
+          decoded := some (runPlain sn h0 ops).1.resp.body, outs := (runPlain sn h0 ops).2 }
+      else respOf sn (finalCW sn cfg (active cfg path ae h0) h0 ops).1 (finalCW sn cfg (active cfg path ae h0) h0 ops).2 := by
   unfold runWith respOf
   rfl
 
@@ -62,20 +62,20 @@ theorem lemma_safe_of_not_midstream (ops : List Op) (h : panicMidstream ops = fa
     status, same headers apart from Content-Encoding / Content-Length / Vary, the body decodes to
     the plain body, every Write / io.Copy returns what the bare writer returns, and the
     Content-Encoding is the plain one or the encoding chosen for the request. -/
-theorem transparent_partial (sn : Sniff) (cfg : Cfg) (path ae : Bytes) (ops : List Op)
+theorem transparent_partial (sn : Sniff) (cfg : Cfg) (path ae : Bytes) (h0 : Hdrs) (ops : List Op)
     (hv : ∀ o ∈ ops, OpValid o) (hD : panicMidstream ops = false) :
-    Transparent (active cfg path ae) (runWith sn cfg path ae ops) (runPlain sn ops) := by
+    Transparent (active cfg path ae h0) (runWith sn cfg path ae h0 ops) (runPlain sn h0 ops) := by
   rw [lemma_runWith_eq]
-  by_cases ha : (active cfg path ae).isEmpty = true
+  by_cases ha : (active cfg path ae h0).isEmpty = true
   · simp only [ha, if_true]
     exact ⟨rfl, rfl, fun _ _ _ _ => rfl, rfl, rfl, Or.inl rfl⟩
   · simp only [ha]
-    have henc : active cfg path ae ≠ [] := by
+    have henc : active cfg path ae h0 ≠ [] := by
       intro e; rw [e] at ha; exact ha rfl
     have hs := lemma_safe_of_not_midstream ops hD
-    obtain ⟨⟨seen', hinv⟩, houts⟩ := lemma_fold sn ops false _ _ hv hs (lemma_init sn cfg _ henc)
-    have he := lemma_runOps_enc sn ops ({ thr := cfg.minSize, enc := active cfg path ae, exclCT := cfg.exclCT } : CW)
-    have := lemma_close_transparent sn seen' _ _ (runOps (plainStep sn) {} ops).2 hinv
+    obtain ⟨⟨seen', hinv⟩, houts⟩ := lemma_fold sn ops false _ _ hv hs (lemma_init sn cfg _ h0 henc)
+    have he := lemma_runOps_enc sn ops ({ base := { live := h0 }, thr := cfg.minSize, enc := active cfg path ae h0, exclCT := cfg.exclCT } : CW)
+    have := lemma_close_transparent sn seen' _ _ (runOps (plainStep sn) { live := h0 } ops).2 hinv
     rw [he] at this
     unfold finalCW runPlain
     simp only
@@ -84,10 +84,10 @@ theorem transparent_partial (sn : Sniff) (cfg : Cfg) (path ae : Bytes) (ops : Li
 
 /-- **C15 on the statement's own domain** (programs of header operations, WriteHeader, Write,
     io.Copy and Flush — no panic): full strength, no exclusion. -/
-theorem transparent (sn : Sniff) (cfg : Cfg) (path ae : Bytes) (ops : List Op)
+theorem transparent (sn : Sniff) (cfg : Cfg) (path ae : Bytes) (h0 : Hdrs) (ops : List Op)
     (hv : ∀ o ∈ ops, OpValid o) (hnp : ops.any isPanicOp = false) :
-    Transparent (active cfg path ae) (runWith sn cfg path ae ops) (runPlain sn ops) := by
-  apply transparent_partial sn cfg path ae ops hv
+    Transparent (active cfg path ae h0) (runWith sn cfg path ae h0 ops) (runPlain sn h0 ops) := by
+  apply transparent_partial sn cfg path ae h0 ops hv
   clear hv
   induction ops with
   | nil => rfl
@@ -109,13 +109,13 @@ example :
     let ops := [Op.setH kCT ["text/plain".toList], .write "aaaa".toList, .flush, .write "bbbbbbbbbb".toList,
                 .writeHeader 404, .copy ["cc".toList, "d".toList]]
     (∀ o ∈ ops, OpValid o) ∧ ops.any isPanicOp = false ∧
-    active ⟨10, true, true, [], [], []⟩ "/p".toList "gzip".toList = "gzip".toList := by
+    active ⟨10, true, true, [], [], []⟩ "/p".toList "gzip".toList [] = "gzip".toList := by
   refine ⟨?_, by decide, ?_⟩
   · intro o ho
     simp only [List.mem_cons, List.not_mem_nil, or_false] at ho
     rcases ho with rfl | rfl | rfl | rfl | rfl | rfl <;> first | trivial | (constructor <;> decide)
   · simp [active, hasSuffix, isPrefix, chooseEncoding, scanAE, cut, parseCoding, paramsQ, eqFold, trimTS, lowerA,
-      Compress.lowerC, parseQValue, brB, gzipB, qGe, isTabSp]
+      Compress.lowerC, parseQValue, brB, gzipB, qGe, isTabSp, hfirst, hget]
 
 /-- …and by a program that panics before any body output (the K15f scenario), which only
     `transparent_partial` covers -/
@@ -130,21 +130,21 @@ example :
 /-! ### consequences, one per clause of the statement -/
 
 /-- the middleware never makes the exchange panic (K15b: it used to, on a Write without WriteHeader) -/
-theorem no_panic (sn : Sniff) (cfg : Cfg) (path ae : Bytes) (ops : List Op)
+theorem no_panic (sn : Sniff) (cfg : Cfg) (path ae : Bytes) (h0 : Hdrs) (ops : List Op)
     (hv : ∀ o ∈ ops, OpValid o) (hD : panicMidstream ops = false) :
-    (runWith sn cfg path ae ops).panicked = false := by
-  rw [(transparent_partial sn cfg path ae ops hv hD).noPanic]
-  exact lemma_plain_no_panic sn ops hv
+    (runWith sn cfg path ae h0 ops).panicked = false := by
+  rw [(transparent_partial sn cfg path ae h0 ops hv hD).noPanic]
+  exact lemma_plain_no_panic sn h0 ops hv
 
 /-- **io.Writer contract**: every Write through the middleware returns `(len p, nil)` or an error
     with `n ≤ len p`, every io.Copy copies everything or reports an error — stated with the
     oracle's own `writeContract` on the results as the harness records them -/
-theorem write_contract (sn : Sniff) (cfg : Cfg) (path ae : Bytes) (ops : List Op)
+theorem write_contract (sn : Sniff) (cfg : Cfg) (path ae : Bytes) (h0 : Hdrs) (ops : List Op)
     (hv : ∀ o ∈ ops, OpValid o) (hD : panicMidstream ops = false) :
-    writeContract (writeLens ops) ((runWith sn cfg path ae ops).outs.map toObs) = true := by
-  rw [(transparent_partial sn cfg path ae ops hv hD).outs]
+    writeContract (writeLens ops) ((runWith sn cfg path ae h0 ops).outs.map toObs) = true := by
+  rw [(transparent_partial sn cfg path ae h0 ops hv hD).outs]
   unfold runPlain
-  exact lemma_plain_contract sn ops {}
+  exact lemma_plain_contract sn ops { live := h0 }
 
 /-- a streaming codec: what the wire carries for a sequence of encoder events (`some d` a Write,
     `none` a Flush) followed by Close, and the decoder; the contract is the concatenation law the
@@ -155,40 +155,40 @@ structure Codec where
   law : ∀ evs, dec (enc evs) = some (plainOf evs)
 
 /-- the body on the wire under codec `c` -/
-def wireBody (c : Codec) (sn : Sniff) (cfg : Cfg) (path ae : Bytes) (ops : List Op) : Option Bytes :=
-  let enc := active cfg path ae
-  if enc.isEmpty then some (runPlain sn ops).1.resp.body
+def wireBody (c : Codec) (sn : Sniff) (cfg : Cfg) (path ae : Bytes) (h0 : Hdrs) (ops : List Op) : Option Bytes :=
+  let enc := active cfg path ae h0
+  if enc.isEmpty then some (runPlain sn h0 ops).1.resp.body
   else
-    let w := (finalCW sn cfg enc ops).1
+    let w := (finalCW sn cfg enc h0 ops).1
     let b := w.base.finish sn
     if w.compress && w.hasWriter then
       (if w.closed && b.body.isEmpty then some (c.enc w.evs) else none)
     else some b.resp.body
 
 /-- whether the response is encoded (by the middleware) -/
-def encoded (sn : Sniff) (cfg : Cfg) (path ae : Bytes) (ops : List Op) : Bool :=
-  let enc := active cfg path ae
-  !enc.isEmpty && (finalCW sn cfg enc ops).1.compress && (finalCW sn cfg enc ops).1.hasWriter
+def encoded (sn : Sniff) (cfg : Cfg) (path ae : Bytes) (h0 : Hdrs) (ops : List Op) : Bool :=
+  let enc := active cfg path ae h0
+  !enc.isEmpty && (finalCW sn cfg enc h0 ops).1.compress && (finalCW sn cfg enc h0 ops).1.hasWriter
 
 /-- **Decoding yields the handler's bytes**, for every codec that satisfies the streaming contract -/
-theorem transparent_wire (c : Codec) (sn : Sniff) (cfg : Cfg) (path ae : Bytes) (ops : List Op)
+theorem transparent_wire (c : Codec) (sn : Sniff) (cfg : Cfg) (path ae : Bytes) (h0 : Hdrs) (ops : List Op)
     (hv : ∀ o ∈ ops, OpValid o) (hD : panicMidstream ops = false) :
-    ∃ wire, wireBody c sn cfg path ae ops = some wire ∧
-      (if encoded sn cfg path ae ops then c.dec wire else some wire) = some (runPlain sn ops).1.resp.body := by
-  have hb := (transparent_partial sn cfg path ae ops hv hD).body
+    ∃ wire, wireBody c sn cfg path ae h0 ops = some wire ∧
+      (if encoded sn cfg path ae h0 ops then c.dec wire else some wire) = some (runPlain sn h0 ops).1.resp.body := by
+  have hb := (transparent_partial sn cfg path ae h0 ops hv hD).body
   unfold runWith at hb
   unfold wireBody encoded
   simp only at hb ⊢
-  by_cases ha : (active cfg path ae).isEmpty = true
+  by_cases ha : (active cfg path ae h0).isEmpty = true
   · simp only [ha, if_true, Bool.not_true, Bool.false_and, Bool.false_eq_true, if_false]
     exact ⟨_, rfl, rfl⟩
-  · have ha' : (active cfg path ae).isEmpty = false := by simpa using ha
+  · have ha' : (active cfg path ae h0).isEmpty = false := by simpa using ha
     simp only [ha', Bool.false_eq_true, if_false, Bool.not_false, Bool.true_and] at hb ⊢
-    by_cases hc : ((finalCW sn cfg (active cfg path ae) ops).1.compress &&
-        (finalCW sn cfg (active cfg path ae) ops).1.hasWriter) = true
+    by_cases hc : ((finalCW sn cfg (active cfg path ae h0) h0 ops).1.compress &&
+        (finalCW sn cfg (active cfg path ae h0) h0 ops).1.hasWriter) = true
     · simp only [hc, if_true] at hb ⊢
-      by_cases hcl : ((finalCW sn cfg (active cfg path ae) ops).1.closed &&
-          ((finalCW sn cfg (active cfg path ae) ops).1.base.finish sn).body.isEmpty) = true
+      by_cases hcl : ((finalCW sn cfg (active cfg path ae h0) h0 ops).1.closed &&
+          ((finalCW sn cfg (active cfg path ae h0) h0 ops).1.base.finish sn).body.isEmpty) = true
       · simp only [hcl, if_true] at hb ⊢
         refine ⟨_, rfl, ?_⟩
         rw [c.law]
@@ -262,27 +262,29 @@ theorem encoding_only_if_listed (ae : Bytes) (cfg : Cfg) (h : chooseEncoding ae 
 /-- **An encoding is used only if the client lists it with non-zero quality**: the response's
     Content-Encoding is the one of the plain run, or it is the coding `chooseEncoding` picked and
     that coding is listed (token level) in the request's Accept-Encoding -/
-theorem encoding_used_only_if_listed (sn : Sniff) (cfg : Cfg) (path ae : Bytes) (ops : List Op)
+theorem encoding_used_only_if_listed (sn : Sniff) (cfg : Cfg) (path ae : Bytes) (h0 : Hdrs) (ops : List Op)
     (hv : ∀ o ∈ ops, OpValid o) (hD : panicMidstream ops = false) :
-    hget (runWith sn cfg path ae ops).resp.hdrs kCE = hget (runPlain sn ops).1.resp.hdrs kCE ∨
-    ∃ e, hget (runWith sn cfg path ae ops).resp.hdrs kCE = some [e] ∧ listed e ae = true := by
-  rcases (transparent_partial sn cfg path ae ops hv hD).coding with h | h
+    hget (runWith sn cfg path ae h0 ops).resp.hdrs kCE = hget (runPlain sn h0 ops).1.resp.hdrs kCE ∨
+    ∃ e, hget (runWith sn cfg path ae h0 ops).resp.hdrs kCE = some [e] ∧ listed e ae = true := by
+  rcases (transparent_partial sn cfg path ae h0 ops hv hD).coding with h | h
   · exact Or.inl h
-  · by_cases ha : active cfg path ae = []
+  · by_cases ha : active cfg path ae h0 = []
     · -- the middleware is not installed: the exchange is the plain one
       left
       rw [lemma_runWith_eq]
       simp [ha]
     · right
-      refine ⟨active cfg path ae, h, ?_⟩
+      refine ⟨active cfg path ae h0, h, ?_⟩
       unfold active at ha ⊢
       split at ha
       · exact absurd rfl ha
       · split at ha
         · exact absurd rfl ha
-        · rename_i h1 h2
-          simp only [h1, h2, Bool.false_eq_true, if_false]
-          exact encoding_only_if_listed ae cfg ha
+        · split at ha
+          · exact absurd rfl ha
+          · rename_i h1 h2 h3
+            simp only [h1, h2, h3, Bool.false_eq_true, if_false]
+            exact encoding_only_if_listed ae cfg ha
 
 /-- `encoding_only_if_listed` is not vacuous: odd spacing, a look-alike token and a refused coding -/
 example : chooseEncoding "x-gzip, GZip ; Q=0.5 ,br;q=0".toList ⟨0, true, true, [], [], []⟩ = "gzip".toList := by
@@ -301,13 +303,13 @@ def tp : Op := .setH kCT ["text/plain".toList]
 /-- K15a as shipped: `c.Status(201)` alone came out as 200 -/
 theorem asis_status_only_lost :
     (runWithAsIs sn0 (cfg0 0) pth gz [.writeHeader 201]).resp.status = 200 ∧
-    (runPlain sn0 [.writeHeader 201]).1.resp.status = 201 := by decide
+    (runPlain sn0 [] [.writeHeader 201]).1.resp.status = 201 := by decide
 
 /-- K15b as shipped: a Write without WriteHeader panicked (status 0) -/
 theorem asis_bare_write_panics :
     (runWithAsIs sn0 (cfg0 0) pth gz [tp, .write "hello".toList]).panicked = true ∧
     (runWithAsIs sn0 (cfg0 10) pth gz [tp, .write "tiny".toList]).panicked = true ∧
-    (runPlain sn0 [tp, .write "hello".toList]).1.panicked = false := by decide
+    (runPlain sn0 [] [tp, .write "hello".toList]).1.panicked = false := by decide
 
 /-- K15c as shipped: minimum size 10, writes of 4 then 10 bytes: the second Write returned 14 -/
 theorem asis_write_returns_too_much :
@@ -317,7 +319,7 @@ theorem asis_write_returns_too_much :
 /-- K15d as shipped: the compressed response had no Content-Type, the plain one a sniffed one -/
 theorem asis_no_sniffed_type :
     hget (runWithAsIs sn0 (cfg0 0) pth gz [.writeHeader 200, .write "<html>".toList]).resp.hdrs kCT = none ∧
-    hget (runPlain sn0 [.writeHeader 200, .write "<html>".toList]).1.resp.hdrs kCT = some ["text/sniffed".toList] := by
+    hget (runPlain sn0 [] [.writeHeader 200, .write "<html>".toList]).1.resp.hdrs kCT = some ["text/sniffed".toList] := by
   decide
 
 /-- K15e as shipped: `x-gzip` selected gzip although the client does not list gzip -/
@@ -329,18 +331,18 @@ theorem asis_substring_match :
 /-- K15g as shipped: a later WriteHeader replaced the recorded status -/
 theorem asis_second_writeHeader_wins :
     (runWithAsIs sn0 (cfg0 0) pth gz [tp, .writeHeader 201, .writeHeader 200, .write "x".toList]).resp.status = 200 ∧
-    (runPlain sn0 [tp, .writeHeader 201, .writeHeader 200, .write "x".toList]).1.resp.status = 201 := by decide
+    (runPlain sn0 [] [tp, .writeHeader 201, .writeHeader 200, .write "x".toList]).1.resp.status = 201 := by decide
 
 /-- K15h as shipped: the handler could not Flush, so `Flush; WriteHeader(404)` answered 404, not 200 -/
 theorem asis_flush_hidden :
     (runWithAsIs sn0 (cfg0 0) pth gz [tp, .flush, .writeHeader 404, .write "x".toList]).resp.status = 404 ∧
-    (runPlain sn0 [tp, .flush, .writeHeader 404, .write "x".toList]).1.resp.status = 200 := by decide
+    (runPlain sn0 [] [tp, .flush, .writeHeader 404, .write "x".toList]).1.resp.status = 200 := by decide
 
 /-- K15k as shipped: a header set after WriteHeader leaked into the response -/
 theorem asis_late_header_leaks :
     hget (runWithAsIs sn0 (cfg0 0) pth gz [tp, .writeHeader 200, .setH "X-Late".toList ["v".toList], .write "x".toList]).resp.hdrs
       "X-Late".toList = some ["v".toList] ∧
-    hget (runPlain sn0 [tp, .writeHeader 200, .setH "X-Late".toList ["v".toList], .write "x".toList]).1.resp.hdrs
+    hget (runPlain sn0 [] [tp, .writeHeader 200, .setH "X-Late".toList ["v".toList], .write "x".toList]).1.resp.hdrs
       "X-Late".toList = none := by decide
 
 /-- K15f as shipped: a handler panic behind recovery left an unfinished stream (undecodable body) -/
@@ -352,7 +354,7 @@ theorem asis_panic_truncates :
 theorem asis_double_encoding :
     hget (runWithAsIs sn0 (cfg0 0) pth gz [.setH kCE ["x-own".toList], tp, .write "data".toList]).resp.hdrs kCE
       = some [gz] ∧
-    hget (runPlain sn0 [.setH kCE ["x-own".toList], tp, .write "data".toList]).1.resp.hdrs kCE
+    hget (runPlain sn0 [] [.setH kCE ["x-own".toList], tp, .write "data".toList]).1.resp.hdrs kCE
       = some ["x-own".toList] := by decide
 
 /-- K15m, open: the code as it is now, handler writes then panics behind recovery — the body no
@@ -360,7 +362,7 @@ theorem asis_double_encoding :
 theorem open_panic_midstream_witness :
     let ops := [tp, .write "partial".toList, .panic, .setH kCT ["application/json".toList], .writeHeader 500,
                 .write "{}".toList]
-    (respOf sn0 (finalCW sn0 (cfg0 0) gz ops).1 (finalCW sn0 (cfg0 0) gz ops).2).decoded = none ∧
-    (runPlain sn0 ops).1.resp.body = "partial{}".toList ∧ panicMidstream ops = true := by decide
+    (respOf sn0 (finalCW sn0 (cfg0 0) gz [] ops).1 (finalCW sn0 (cfg0 0) gz [] ops).2).decoded = none ∧
+    (runPlain sn0 [] ops).1.resp.body = "partial{}".toList ∧ panicMidstream ops = true := by decide
 
 end Rivaas.C15
